@@ -1,6 +1,7 @@
 -- Root of the JRV library: models, driver, generated facts, property theorems.
 import JRV.Model.Json
 import JRV.Model.Client
+import JRV.Model.Payload
 import JRV.Generated
 import JRV.Driver
 import JRV.Properties.C06
